@@ -14,8 +14,10 @@ NOT_DECIDED = ["exactly-once delivery as a behaviour (tokio channels, fjall snap
 
 def spawn_of(main, target_body, *spawn_fns):
     """The spawn call in `main` whose closure/coroutine argument is `target_body`."""
+    if C.THREAD_SPAWN in spawn_fns:
+        spawn_fns = tuple(spawn_fns) + (C.THREAD_BUILDER_SPAWN,)
     for c in q.live_calls(main, *spawn_fns):
-        for x in walk(c.arg(0)):
+        for x in walk(c.arg(1) if c.fn == C.THREAD_BUILDER_SPAWN else c.arg(0)):
             if x[0] == "agg" and x[1].get("def") == target_body.def_:
                 return c, x
     return None, None
@@ -175,7 +177,7 @@ def r4(run):
     run.ob("%s|history|done-is-last" % C.READ, not late, d.sp, "no frame is sent after the done signal (%s)" % late, reason="done-before-threshold")
     thr = [c for c in sends if "xs.threshold" in q.const_strs(c.arg(1))]
     run.exact("threshold send sites", len(thr), 1, h.sp)
-    nxt = [c for c in h.calls() if c.fn.endswith("Iterator::next") and c.bb in h.live_blocks()]
+    nxt = [c for c in h.calls() if c.fn.endswith("Iterator::next") and c.bb in h.live_blocks() and any(x[0] == "call" and x[1].fn == C.ITER_FRAMES for x in walk(c.arg(0)))]
     for t in thr:
         # after the loop: not able to reach the loop head again
         run.ob("%s|history|threshold-after-scan" % C.READ, bool(nxt) and not any(q.reaches(h, t.bb, n.bb) for n in nxt), t.sp,
